@@ -4,15 +4,40 @@ import fcntl, hashlib, json, os, random, re, subprocess, sys, time, glob, shutil
 from concurrent.futures import ThreadPoolExecutor
 
 VERIF = os.path.dirname(os.path.dirname(os.path.abspath(__file__)))
-REPO = "/repo"
-WORK = os.path.join(VERIF, ".work")
-COQ = os.path.join(VERIF, "coq")
+REPO = os.path.abspath(os.environ.get("VERIF_REPO") or "/repo")
+ALT = REPO != "/repo"
+# Registered checks always run against /repo.  VERIF_REPO=<worktree> runs the
+# same machinery against a scratch copy of the repository (mutation self-tests)
+# in a private work area, so it never touches /verif/coq, evidence/ or replays/.
+if ALT:
+    _h = hashlib.sha256(REPO.encode()).hexdigest()[:10]
+    WORK = os.path.join(VERIF, ".work", "alt-" + _h)
+    COQ = os.path.join(WORK, "coq")
+    HARNESS_DIR = os.path.join(WORK, "harness")
+    OUTDIR = WORK
+else:
+    WORK = os.path.join(VERIF, ".work")
+    COQ = os.path.join(VERIF, "coq")
+    HARNESS_DIR = os.path.join(VERIF, "harness")
+    OUTDIR = VERIF
 TH = os.path.join(COQ, "theories")
 TARGET = os.path.join(WORK, "target")
 HARNESS_BIN = os.path.join(TARGET, "debug", "rvharness")
 NCPU = min(16, os.cpu_count() or 4)
 
 os.makedirs(WORK, exist_ok=True)
+
+
+def prepare_alt():
+    """Mirror coq/ and harness/ into the private work area of an alternate repo."""
+    if not ALT:
+        return
+    subprocess.run(["rsync", "-a", "--delete", os.path.join(VERIF, "coq") + "/", COQ + "/"], check=True)
+    os.makedirs(os.path.join(COQ, "theories", "Gen"), exist_ok=True)
+    subprocess.run(["rsync", "-a", "--delete", "--exclude", "target", os.path.join(VERIF, "harness") + "/", HARNESS_DIR + "/"], check=True)
+    ct = os.path.join(HARNESS_DIR, "Cargo.toml")
+    t = open(ct).read().replace('path = "/repo/rsass"', f'path = "{REPO}/rsass"')
+    open(ct, "w").write(t)
 
 
 def log(*a):
@@ -48,13 +73,13 @@ def build_harness():
         env = dict(os.environ, CARGO_TARGET_DIR=TARGET, CARGO_NET_OFFLINE="true")
         t0 = time.time()
         p = subprocess.run(["cargo", "build", "--offline", "--quiet"],
-                           cwd=os.path.join(VERIF, "harness"), env=env,
+                           cwd=HARNESS_DIR, env=env,
                            capture_output=True, text=True)
         if p.returncode != 0:
             # retry once with a fresh lock file copied from the repo
-            shutil.copy(lock_src, os.path.join(VERIF, "harness", "Cargo.lock"))
+            shutil.copy(lock_src, os.path.join(HARNESS_DIR, "Cargo.lock"))
             p = subprocess.run(["cargo", "build", "--offline", "--quiet"],
-                               cwd=os.path.join(VERIF, "harness"), env=env,
+                               cwd=HARNESS_DIR, env=env,
                                capture_output=True, text=True)
         if p.returncode != 0:
             return False, p.stderr[-4000:]
@@ -384,14 +409,18 @@ def nbytes(lst):
 # evidence / findings
 
 def load_known():
-    p = os.path.join(VERIF, "known_findings.json")
-    if not os.path.exists(p):
-        return {"open": [], "fixed": []}
-    return json.load(open(p))
+    """Known findings are committed under known_findings/<property>.json
+    ({"open": [...], "fixed": [...]}); never written at run time."""
+    res = {"open": [], "fixed": []}
+    for p in sorted(glob.glob(os.path.join(VERIF, "known_findings", "*.json"))):
+        d = json.load(open(p))
+        res["open"].extend(d.get("open", []))
+        res["fixed"].extend(d.get("fixed", []))
+    return res
 
 
 def write_evidence(prop, tier, seed, coverage, wall, violations, assumptions, extra=None):
-    os.makedirs(os.path.join(VERIF, "evidence"), exist_ok=True)
+    os.makedirs(os.path.join(OUTDIR, "evidence"), exist_ok=True)
     ev = {
         "property_id": prop, "tier": tier, "seed": int(seed), "level": "proof",
         "coverage": coverage, "assumptions": assumptions,
@@ -399,15 +428,17 @@ def write_evidence(prop, tier, seed, coverage, wall, violations, assumptions, ex
     }
     if extra:
         ev.update(extra)
-    with open(os.path.join(VERIF, "evidence", prop + ".json"), "w") as f:
+    with open(os.path.join(OUTDIR, "evidence", prop + ".json"), "w") as f:
         json.dump(ev, f, indent=1, ensure_ascii=True, default=str)
 
 
 def write_replay(prop, obj):
-    os.makedirs(os.path.join(VERIF, "replays"), exist_ok=True)
+    os.makedirs(os.path.join(OUTDIR, "replays"), exist_ok=True)
     blob = json.dumps(obj, sort_keys=True, default=str)
     h = hashlib.sha256(blob.encode()).hexdigest()[:12]
     path = os.path.join("replays", f"{prop}-{h}.json")
+    if ALT:
+        path = os.path.join(OUTDIR, path)
     with open(os.path.join(VERIF, path), "w") as f:
         json.dump(obj, f, indent=1, default=str)
     return path
